@@ -66,6 +66,9 @@ CheckOther(e) ==
    THEN {"SelectionChangesOnlyBySelectionMessages_" \o e.ev} ELSE {})
   \cup (IF \E r \in DOMAIN rep : r \in DOMAIN PostRep(e) /\ rep[r].jailed /\ ~PostRep(e)[r].jailed /\ e.ev # "UnjailReporter"
         THEN {"ReleaseOnlyByUnjail"} ELSE {})
+  \* a jail term runs its time: while a reporter stays jailed its release time never moves to an earlier moment
+  \cup (IF \E r \in DOMAIN rep : r \in DOMAIN PostRep(e) /\ rep[r].jailed /\ PostRep(e)[r].jailed /\ PostRep(e)[r].until \prec rep[r].until
+        THEN {"JailTimeNeverMovesBackwards"} ELSE {})
   \* a lock that is still running is never cut short or dropped, whatever happens to the selector's staking records meanwhile
   \* (the switch message has its own clause)
   \cup (IF e.ev # "SwitchReporter"
